@@ -412,6 +412,10 @@ fn run(c: &mut Case) {
             );
         } else if run.fin.kind() != base.fin.kind() {
             c.violation(format!("C19/{}/{}/finish-differs", kind, err_kind), format!("into_inner() ended {} instead of {}", run.fin.short(), base.fin.short()), wit("into_inner differs"));
+        } else if !run.fin.is_ok() && !base.fin.is_ok() && (run.bytes.starts_with(&base.bytes) || base.bytes.starts_with(&run.bytes)) {
+            // both histories end with into_inner() refusing: there is no final output, only what had been handed over so
+            // far, and how early accepted bytes are handed over is C10's subject — one being a prefix of the other is enough
+            c.count("unfinished_in_both_histories");
         } else if run.bytes != base.bytes {
             let at = run.bytes.iter().zip(base.bytes.iter()).position(|(x, y)| x != y).unwrap_or(run.bytes.len().min(base.bytes.len()));
             c.violation(format!("C19/{}/{}/bytes-differ", kind, err_kind), format!("final output differs at byte {} ({} vs {} bytes)", at, run.bytes.len(), base.bytes.len()), wit("final bytes differ"));
